@@ -13,7 +13,7 @@ EXPLANATION = (
     "union of all of its branches in place and a repetition as its body {m,n} with the token's own bounds; (any) "
     "token::any builds one alternation holding every input tree in order, Checked::any and crate::any use it and compile "
     "that same tree.")
-RULES = "C07.ctx (TABLE), C07.union / C07.iterate (EMIT, = C01.homo), C07.any (EFFECT+WHO)"
+RULES = "C07.ctx (TABLE), C07.union / C07.iterate (EMIT, = C01.homo), C07.flag (EMIT: a literal's case flag is independent of enclosing branches), C07.any (EFFECT+WHO)"
 
 
 def run(ctx):
@@ -23,6 +23,7 @@ def run(ctx):
     R.undecided("language equality of concrete pairs of expressions (follows by induction from the decided clauses)")
     encoder.rule_ctx(F, R)
     encoder.rule_homo(F, R)
+    encoder.rule_literal_flags(F, R, "C07.flag")
     rule_any(F, R)
 
 
